@@ -142,25 +142,24 @@ Proof using Hm1 Hm2 Hpre Hf.
 Qed.
 End UrlPath.
 
-(* parse_path for a scheme other than file, entered with "prefix /": the prefix and the '/' stay, what
-   follows is free of '?' and '#', and the rest of the input is empty or starts with '?' / '#' *)
-Lemma parse_path_shape dbg st hh ps ser l s' hh' rem : st_is_file st = false -> nlen ser = ps + 1 ->
-  nnth ser ps = Some 47 ->
+(* parse_path for a scheme other than file, entered with "prefix / ..." (what follows the prefix free of
+   '?' / '#'): the prefix and the '/' stay, what follows is free of '?' and '#', and the rest of the input
+   is empty or starts with '?' / '#' *)
+Lemma parse_path_shape dbg st hh ps ser l s' hh' rem : st_is_file st = false -> ps + 1 <= nlen ser ->
+  nnth ser ps = Some 47 -> forallb no_qh (nskipn ps ser) = true ->
   parse_path dbg CUrlParser st hh ps ser l = POk (s', hh', rem) ->
   agree_pre (ps + 1) ser s' /\ ps + 1 <= nlen s' /\ nnth s' ps = Some 47
   /\ forallb no_qh (nskipn ps s') = true /\ rem_ok rem.
 Proof.
-  intros Hnf Hl H47 H. unfold parse_path in H.
-  assert (PInv ps (ps + 1) ser ser) as I0.
-  { split; [apply nfirstn_all; lia|]. rewrite (nskipn_cons_of_nnth _ _ _ H47).
-    rewrite nskipn_all by lia. reflexivity. }
-  destruct (pinv_loop_url dbg st ps (ps + 1) ser ltac:(lia) ltac:(lia) Hl ltac:(rewrite Hnf; discriminate)
+  intros Hnf Hl H47 Hq H. unfold parse_path in H.
+  assert (nlen (nfirstn (ps + 1) ser) = ps + 1) as Lp by (apply nlen_nfirstn; exact Hl).
+  assert (PInv ps (ps + 1) (nfirstn (ps + 1) ser) ser) as I0 by (split; [reflexivity | exact Hq]).
+  destruct (pinv_loop_url dbg st ps (ps + 1) (nfirstn (ps + 1) ser) ltac:(lia) ltac:(lia) Lp ltac:(rewrite Hnf; discriminate)
               l ser (nlen ser) [] hh s' hh' rem H I0 ltac:(lia)) as (x & Ex & Ix & Hr).
   unfold file_path_fixup in Ex. rewrite Hnf in Ex. subst x.
-  pose proof (pinv_len ps (ps + 1) ser ltac:(lia) ltac:(lia) Hl s' Ix) as L. destruct Ix as [I1 I2].
-  split; [unfold agree_pre; rewrite I1; symmetry; apply nfirstn_all; lia|].
-  split; [exact L|]. split; [|split; [exact I2 | exact Hr]].
-  rewrite <- (nnth_nfirstn s' (ps + 1) ps) by lia. rewrite I1. exact H47.
+  pose proof (pinv_len ps (ps + 1) (nfirstn (ps + 1) ser) ltac:(lia) ltac:(lia) Lp s' Ix) as L. destruct Ix as [I1 I2].
+  split; [exact I1|]. split; [exact L|]. split; [|split; [exact I2 | exact Hr]].
+  rewrite (pre_nnth (ps + 1) ser s' ps I1) by lia. exact H47.
 Qed.
 
 (* parse_path_start behind an authority: the text in front stays, the path is empty or starts with '/' *)
@@ -178,7 +177,8 @@ Proof.
             /\ forallb no_qh (nskipn (nlen ser) s') = true /\ rem_ok rem) as Hpush.
   { intros X HX.
     destruct (parse_path_shape dbg st hh (nlen ser) (ser ++ [47]) X s' hh' rem Hnf
-                ltac:(rewrite nlen_app; reflexivity) (nnth_last ser 47) HX) as (A & B & C & D & E).
+                ltac:(rewrite nlen_app; change (nlen [47]) with 1; lia) (nnth_last ser 47)
+                ltac:(rewrite nskipn_app_exact; reflexivity) HX) as (A & B & C & D & E).
     split; [|split; [lia | split; [right; exact C | split; [exact D | exact E]]]].
     eapply agree_pre_trans; [apply agree_pre_app_r | eapply agree_pre_le; [exact A | lia]]. }
   assert (agree_pre (nlen ser) ser ser /\ nlen ser <= nlen ser
